@@ -43,7 +43,7 @@ impl Check for C12 {
         ]
     }
     fn probes(&self) -> Vec<&'static str> {
-        vec!["scenario.secret_channel", "scenario.invisible_user", "observer.oper", "observer.invisible", "query.WHO", "query.NAMES", "query.LIST", "query.WHOIS", "speak_blocked_ok"]
+        vec!["scenario.secret_channel", "scenario.invisible_user", "observer.oper", "observer.invisible", "observer.ex_member", "query.WHO", "query.NAMES", "query.LIST", "query.WHOIS", "speak_blocked_ok"]
     }
 
     fn gen(&self, run_seed: u64, idx: u64, _tier: Tier) -> Trace {
@@ -73,12 +73,24 @@ impl Check for C12 {
         g.exclude.push(obs);
         raw(&mut g, obs, "NICK watcher");
         raw(&mut g, obs, "USER watch 0 * :The Watcher");
-        let okind = r.below(4);
-        let okind_name = ["plain", "oper", "invisible", "multi_prefix"][okind];
+        let okind = r.below(6);
+        let okind_name = ["plain", "oper", "invisible", "multi_prefix", "ex_member", "ex_member_kicked"][okind];
+        let hidden_chan_name = if secret { "#hid" } else { "#inv" };
         match okind {
             1 => raw(&mut g, obs, "OPER root rootpw"),
             2 => raw(&mut g, obs, "MODE watcher +i"),
             3 => raw(&mut g, obs, "CAP REQ :multi-prefix"),
+            4 if !cfg.channels.iter().any(|c| c.name == hidden_chan_name) => {
+                // the observer once was the only member of a channel of that name and left it (public history, both worlds)
+                raw(&mut g, obs, &format!("JOIN {}", hidden_chan_name));
+                raw(&mut g, obs, &format!("TOPIC {} :old times", hidden_chan_name));
+                raw(&mut g, obs, &format!("PART {}", hidden_chan_name));
+            }
+            5 if !cfg.channels.iter().any(|c| c.name == hidden_chan_name) => {
+                raw(&mut g, obs, &format!("JOIN {},#obs2", hidden_chan_name));
+                raw(&mut g, obs, &format!("MODE {} -o watcher", hidden_chan_name));
+                raw(&mut g, obs, &format!("PART {},#obs2", hidden_chan_name));
+            }
             _ => {}
         }
         // hidden connections (exist in both worlds; what they do inside the markers happens in world A only)
